@@ -388,6 +388,36 @@ def stepSys (st : DState) (cmd : String) (args : List String) : DState × String
                " | order=" ++ ",".intercalate ((toposort cs).map (·.name)) ++
                " topo=" ++ toString (isTopo cs [] (toposort cs)))
       | none => (st, "bad-op")
+  -- sys.forms comp comp .. | v=m:b v=m:b .. | var=val .. | 0/1     components evaluated through their MODEL | linear normalisations
+  --   z = m x + b of variables (others: identity) | the caller's inputs AS GIVEN | normalized_inputs
+  --   → every produced variable as the NUMBER `System.predict` holds for it and its form (n = normalised, r = raw)
+  | "sys.forms", [ums, norms, binds, [ni]] =>
+      let nrm := norms.mapM fun t =>
+        match t.splitOn "=" with
+        | [v, mb] => match mb.splitOn ":" with
+            | [m, b] => do
+                let mq ← parseRat? m
+                let bq ← parseRat? b
+                some (v, mq, bq)
+            | _ => none
+        | _ => none
+      let xs := binds.mapM fun b =>
+        match b.splitOn "=" with
+        | [v, q] => (parseRat? q).map fun r => (v, r)
+        | _ => none
+      match nrm, xs with
+      | some nr, some x =>
+          let look := fun (v : String) => ((nr.find? (·.1 == v)).map (·.2)).getD (1, 0)
+          let nm : String → Rat → Rat := fun v z => (look v).1 * z + (look v).2
+          let dn : String → Rat → Rat := fun v z => (z - (look v).2) / (look v).1
+          let cs := st.scomps.map fun (n, i, o) => mkSComp n i o
+          let order := toposort cs
+          let fcs : List FComp := order.map fun c => { name := c.name, ins := c.ins, outs := c.outs, fnModel := c.fn, fnSurr := c.fn }
+          let env0 : FEnv := inputsF (fun v => ((x.find? (·.1 == v)).map (·.2)).getD 0) (ni == "1")
+          let env := sweepF nm dn (fun n => ums.contains n) fcs env0
+          let sorted := sortBy (fun a b => a < b) (produced cs)
+          (st, " ".intercalate (sorted.map fun v => v ++ "=" ++ showRat (env v).1 ++ ":" ++ (if (env v).2 then "n" else "r")))
+      | _, _ => (st, "bad-op")
   | _, _ => (st, "bad-op")
 
 def parseCand? (tok : String) : Option Cand :=
